@@ -173,6 +173,10 @@ func init() {
 	Checks["C13"] = &Check{Level: "model_checking", Run: CheckC13, QuickBudget: 300, ThoroughBudget: 1800}
 }
 
+func init() {
+	Checks["C18"] = &Check{Level: "exploration", Run: CheckC18, QuickBudget: 300, ThoroughBudget: 1800}
+}
+
 // kReplay re-executes an operation-history counterexample of the K space.
 func kReplay(prop string) func(v *Viol) []string {
 	return func(v *Viol) []string {
